@@ -31,7 +31,7 @@ func init() { registry["C09"] = runC09 }
 // ---------------------------------------------------------------- values
 
 type c09Val struct {
-	K string // b bytes, s string, i int, f float, t true, x false, n nil, ? unknown
+	K string // b bytes, s string, i int, f float, t true, x false, n nil, ? unknown, ! the evaluation fails
 	S string
 	I int64
 	F float64
@@ -55,6 +55,8 @@ func (v c09Val) MarshalJSON() ([]byte, error) {
 		t = "false"
 	case "n":
 		t = "nil"
+	case "!":
+		t = "evaluation fails"
 	default:
 		t = "unknown:" + v.S
 	}
@@ -92,8 +94,31 @@ func c09FromAny(v any) c09Val {
 	return c09Val{K: "?", S: fmt.Sprintf("%T:%v", v, v)}
 }
 
+// c09Fail is the scripted value of an evaluation that fails (c09TblExpr.Execute returns an error)
+type c09Fail struct{}
+
+var c09Bad = c09Val{K: "!"}
+
+// lcoq: the OUTCOME of an evaluation (a value, or "fails") for an LCase
+func (v c09Val) lcoq() string {
+	if v.K == "!" {
+		return "er"
+	}
+	return "ok (" + v.coq() + ")"
+}
+
+func c09LVals(vs []c09Val) string {
+	p := make([]string, len(vs))
+	for i, v := range vs {
+		p[i] = v.lcoq()
+	}
+	return coqList(p)
+}
+
 func (v c09Val) any() any {
 	switch v.K {
+	case "!":
+		return c09Fail{}
 	case "b":
 		return []byte(v.S)
 	case "s":
@@ -236,7 +261,8 @@ type c09Obs struct {
 }
 
 type c09Case struct {
-	Kind     string      `json:"kind"` // node | stmt
+	Kind     string      `json:"kind"`                                         // node | stmt
+	Lazy     bool        `json:"pairs_hold_outcomes_of_evaluations,omitempty"` // LCase: a value may be "evaluation fails"
 	Query    string      `json:"query,omitempty"`
 	Oracle   string      `json:"oracle_query,omitempty"`
 	Store    [][2]string `json:"store,omitempty"`
@@ -312,10 +338,18 @@ func (c *c09Case) coq() string {
 		lim = fmt.Sprintf("(Some %d)", c.Limit)
 	}
 	ps := make([]string, len(c.Pairs))
+	ctor := "Case"
 	for i, p := range c.Pairs {
-		ps[i] = fmt.Sprintf("mkO %s %s %s", c09Vals(p.G), c09Vals(p.K), c09Vals(p.A))
+		if c.Lazy {
+			ps[i] = fmt.Sprintf("mkL %s %s %s", c09LVals(p.G), c09LVals(p.K), c09LVals(p.A))
+		} else {
+			ps[i] = fmt.Sprintf("mkO %s %s %s", c09Vals(p.G), c09Vals(p.K), c09Vals(p.A))
+		}
 	}
-	return fmt.Sprintf("Case (Plan %s %s %d %s) %d %s %s %s %s", coqBool(c.All), coqList(fs), c.Start, lim,
+	if c.Lazy {
+		ctor = "LCase"
+	}
+	return fmt.Sprintf("%s (Plan %s %s %d %s) %d %s %s %s %s", ctor, coqBool(c.All), coqList(fs), c.Start, lim,
 		c.B, coqNatList(c.Chunks), coqList(ps), c.ObsRow.coq(), c.ObsBatch.coq())
 }
 
@@ -430,6 +464,9 @@ func c09Emit(e *emitter, c *c09Case) {
 	if c.Limit >= 0 {
 		e.count("with_limit")
 	}
+	if c.Lazy {
+		e.count("pairs_hold_outcomes_of_evaluations")
+	}
 	for _, f := range c.Fields {
 		if f.Key >= 0 {
 			e.count("field=group_value")
@@ -475,9 +512,10 @@ func c09Emit(e *emitter, c *c09Case) {
 		if c.ObsRow.Err != "" || c.ObsBatch.Err != "" {
 			e.count("execution_error")
 		}
-		// a failing group (x / 0) surfaces when its row is completed: with LIMIT the two modes
-		// complete different numbers of rows, so only error-free runs are compared there
-		lazy := c.Limit >= 0 && (c.ObsRow.Err != "" || c.ObsBatch.Err != "")
+		// a failing group (x / 0) surfaces when its row is completed: with LIMIT batch mode
+		// completes whole runs of PlanBatchSize rows and may fail where row mode does not reach
+		// the failing group; the converse (batch completes, row fails) is a violation
+		lazy := c.Limit >= 0 && c.ObsBatch.Err != ""
 		if !lazy && !c09SameObs(c.ObsRow, c.ObsBatch) {
 			e.fail(idx, "row mode and batch mode return different aggregate rows", sig+"/row-batch", c)
 		}
@@ -513,6 +551,9 @@ func (t *c09TblExpr) Execute(kv kvql.KVPair, ctx *kvql.ExecuteCtx) (any, error) 
 	id := keyID(kv.Key)
 	if id < 0 || id >= len(t.vals) {
 		return nil, fmt.Errorf("scripted expression: no row %q", kv.Key)
+	}
+	if _, bad := t.vals[id].(c09Fail); bad {
+		return nil, kvql.NewExecuteError(0, "scripted expression %s fails on row %q", t.name, kv.Key)
 	}
 	return t.vals[id], nil
 }
@@ -1046,7 +1087,12 @@ func c09RunStmt(e *emitter, r *rng, store [][2]string, groups []c09Src, aggs []c
 			if cl.Fn == "group_concat" {
 				calls[j] = fmt.Sprintf("group_concat(%s, '%s')", argSrc[cl.Arg][0], cl.Sep)
 			} else if cl.Fn == "count" {
+				// count never evaluates its argument: count(1), or count over the argument column
+				// (whose evaluation may fail on some pair without failing the statement)
 				calls[j] = "count(1)"
+				if r.intn(2) == 0 {
+					calls[j] = fmt.Sprintf("count(%s)", argSrc[cl.Arg][0])
+				}
 			} else {
 				calls[j] = fmt.Sprintf("%s(%s)", cl.Fn, argSrc[cl.Arg][0])
 			}
@@ -1079,12 +1125,36 @@ func c09RunStmt(e *emitter, r *rng, store [][2]string, groups []c09Src, aggs []c
 	c.Oracle = "select " + strings.Join(oracle, ", ") + " where " + where
 	st := newStore(store)
 	or := runQuery(c.Oracle, st.clone(), false, B, true)
-	if or.Err != nil || or.Panic != "" {
+	if or.Panic != "" {
 		e.count("stmt_oracle_failed")
 		e.m.OutOfModel++
 		return
 	}
+	if or.Err != nil {
+		// some expression fails on some pair: record the OUTCOME of every evaluation on every
+		// scanned pair (one statement per expression and pair) and let the twin decide with the
+		// evaluation discipline which of them the plan asks for
+		pairs, okp := c3zOutcomes(store, where, oracle[1:])
+		if !okp {
+			e.count("stmt_where_failed")
+			e.m.OutOfModel++
+			return
+		}
+		e.count("stmt_oracle_failed_outcomes_per_pair")
+		c.Lazy = true
+		for _, row := range pairs {
+			p := c09Pair{}
+			k := 0
+			p.G, k = row[k:k+len(groups)], k+len(groups)
+			p.K, k = row[k:k+nk], k+nk
+			p.A = row[k : k+len(argSrc)]
+			c.Pairs = append(c.Pairs, p)
+		}
+	}
 	for _, row := range or.Rows {
+		if c.Lazy {
+			break
+		}
 		p := c09Pair{}
 		k := 1
 		for range groups {
@@ -1293,7 +1363,292 @@ func runC09(c *runCtx) error {
 	c09CollisionStmts(e, r)
 	c09RandomNode(e, r, nNode)
 	c09RandomStmt(e, r, nStmt)
+	c3zNodes(e, r, nNode/2)
+	c3zStmts(e, r, c.thorough() || c.search)
 	e.m.Exhaustive = true
 	e.m.Notes = append(e.m.Notes, "exhaustive part: every sequence of group tuples up to the stated length over four pools of tuples whose renderings collide under concatenation; random part seeded")
 	return e.flush()
+}
+
+// ---------------------------------------------------------------- c3z: the evaluation discipline
+// Cases whose pairs hold the OUTCOME of every evaluation (a value, or "fails"): the Go code asks
+// for the GROUP BY values of every pair, for the non-aggregate fields on the first pair of a
+// group only, for the argument of every aggregate call except count on every pair; and it
+// completes a group's row only when Next / Batch reach it.  An evaluation that fails but is not
+// asked for must be harmless; one that is asked for must fail the statement, in both modes.
+
+// c3zOutcomes evaluates every expression of [exprs] on every pair that passes [where], one pair
+// and one expression at a time (`select <expr>` on a store that holds that pair only).
+func c3zOutcomes(store [][2]string, where string, exprs []string) ([][]c09Val, bool) {
+	scan := runQuery("select key, value where "+where, newStore(store), false, 32, false)
+	if scan.Err != nil || scan.Panic != "" {
+		return nil, false
+	}
+	out := [][]c09Val{}
+	for _, row := range scan.Rows {
+		one := [][2]string{{string(row[0].([]byte)), string(row[1].([]byte))}}
+		vals := make([]c09Val, len(exprs))
+		for i, x := range exprs {
+			rr := runQuery("select "+x+" where true", newStore(one), false, 1, false)
+			switch {
+			case rr.BuildErr || rr.Panic != "":
+				return nil, false
+			case rr.Err != nil:
+				vals[i] = c09Bad
+			case len(rr.Rows) != 1 || len(rr.Rows[0]) != 1:
+				return nil, false
+			default:
+				vals[i] = c09FromAny(rr.Rows[0][0])
+			}
+		}
+		out = append(out, vals)
+	}
+	return out, true
+}
+
+// 10 / (count(a) - k): fails exactly for the groups of k pairs
+func c3zFinField(arg int, k int64) c09Field {
+	return c09Field{Key: -1, Calls: []c09Call{{Fn: "count", Sep: ",", Arg: arg}},
+		E: &c09Expr{Kind: "bin", Op: "/", L: &c09Expr{Kind: "int", I: 10},
+			R: &c09Expr{Kind: "bin", Op: "-", L: &c09Expr{Kind: "call", Call: 0}, R: &c09Expr{Kind: "int", I: k}}}}
+}
+
+// node level: random typed columns as in c09RandomNode, plus failing evaluations
+func c3zNodes(e *emitter, r *rng, count int) {
+	for it := 0; it < count; it++ {
+		n := 1 + r.intn(10)
+		c := &c09Case{Limit: -1, B: pick(r, []int{1, 2, 3, 4}), Lazy: true}
+		ng := 1 + r.intn(2)
+		if r.intn(8) == 0 {
+			c.All, ng = true, 0
+		}
+		gcols := make([][]c09Val, ng)
+		for j := range gcols {
+			gcols[j] = c09GroupColumn(r, n)
+		}
+		na := 1 + r.intn(2)
+		kinds := make([]string, na)
+		acols := make([][]c09Val, na+1)
+		for j := 0; j < na; j++ {
+			kinds[j] = pick(r, []string{"int", "int", "float", "mixed", "text", "word", "bool"})
+			acols[j] = c09ArgColumn(r, n, kinds[j])
+		}
+		acols[na] = c09ArgColumn(r, n, "int") // read by count calls only
+		seen := map[string]bool{}
+		first := make([]bool, n)
+		for i := 0; i < n; i++ {
+			p := c09Pair{}
+			t := ""
+			for j := range gcols {
+				p.G = append(p.G, gcols[j][i])
+				p.K = append(p.K, gcols[j][i])
+				t += gcols[j][i].K[:1] + ":" + gcols[j][i].text() + "\x00"
+			}
+			first[i] = !seen[t]
+			seen[t] = true
+			for j := range acols {
+				p.A = append(p.A, acols[j][i])
+			}
+			c.Pairs = append(c.Pairs, p)
+		}
+		for j := 0; j < ng; j++ {
+			c.Fields = append(c.Fields, c09Field{Key: j})
+		}
+		nf := 1 + r.intn(2)
+		for k := 0; k < nf; k++ {
+			f := c09AggField(r, kinds, false)
+			for tries := 0; tries < 20 && c09HasConstOnly(f.E); tries++ {
+				f = c09AggField(r, kinds, false)
+			}
+			if c09HasConstOnly(f.E) {
+				f = c09Call1("sum", 0)
+			}
+			pos := r.intn(len(c.Fields) + 1)
+			c.Fields = append(c.Fields[:pos], append([]c09Field{f}, c.Fields[pos:]...)...)
+		}
+		c.Fields = append(c.Fields, c09Call1("count", na))
+		if r.intn(2) == 0 {
+			f := c3zFinField(na, int64(1+r.intn(3)))
+			pos := r.intn(len(c.Fields) + 1)
+			c.Fields = append(c.Fields[:pos], append([]c09Field{f}, c.Fields[pos:]...)...)
+			e.count("c3z:completion_may_fail")
+		}
+		if r.intn(2) == 0 {
+			c.Start, c.Limit = r.intn(4), r.intn(5)
+		}
+		// failing evaluations
+		what := r.intn(8)
+		for i := 0; i < n; i++ {
+			// the skipped ones: non-aggregate fields on later pairs of a group, count's argument
+			if !first[i] {
+				for j := range c.Pairs[i].K {
+					if r.intn(2) == 0 {
+						c.Pairs[i].K[j] = c09Bad
+						e.count("c3z:field_fails_on_later_pair")
+					}
+				}
+			}
+			if r.intn(2) == 0 {
+				c.Pairs[i].A[na] = c09Bad
+				e.count("c3z:count_argument_fails")
+			}
+		}
+		i := r.intn(n)
+		switch {
+		case what == 0 && ng > 0 && first[i]:
+			c.Pairs[i].K[r.intn(ng)] = c09Bad
+			e.count("c3z:field_fails_on_first_pair")
+		case what == 1 && ng > 0:
+			c.Pairs[i].G[r.intn(ng)] = c09Bad
+			e.count("c3z:group_value_fails")
+		case what == 2:
+			c.Pairs[i].A[r.intn(na)] = c09Bad // read by an aggregate only if a field names that column
+			e.count("c3z:aggregate_argument_fails")
+		}
+		if !c09InModel(c) {
+			e.m.OutOfModel++
+			continue
+		}
+		chs := chunkings(r, n, c.B, 2)
+		c09RunNode(c, chs[r.intn(len(chs))])
+		c09Emit(e, c)
+	}
+}
+
+type c3zTpl struct {
+	sel    string // select list
+	group  string // GROUP BY list as written ("" = none)
+	groups []string
+	keys   []string
+	args   []string
+	fields []c09Field
+}
+
+// statement level: real statements (parser, checker, optimizer, scan) in which a skipped
+// evaluation fails; `group by g, g` admits a select field that is no GROUP BY field
+func c3zStmts(e *emitter, r *rng, thorough bool) {
+	g := "substr(key, 0, 1)"
+	bad3, bad4 := "10 / (int(value) - 3)", "10 / (int(value) - 4)"
+	tpls := []c3zTpl{
+		{"substr(key, 0, 1) as g, 10 / (int(value) - 3) as x, count(1) as c, sum(int(value)) as s", "g, g",
+			[]string{g, g}, []string{g, bad3}, []string{"1", "int(value)"},
+			[]c09Field{{Key: 0}, {Key: 1}, c09Call1("count", 0), c09Call1("sum", 1)}},
+		{"10 / (int(value) - 3) as x, max(int(value)) as m, substr(key, 0, 1) as g", "g, g",
+			[]string{g, g}, []string{bad3, g}, []string{"int(value)"},
+			[]c09Field{{Key: 0}, c09Call1("max", 0), {Key: 1}}},
+		{"substr(key, 0, 1) as g, count(10 / (int(value) - 3)) as c, sum(int(value)) as s", "g",
+			[]string{g}, []string{g}, []string{bad3, "int(value)"},
+			[]c09Field{{Key: 0}, c09Call1("count", 0), c09Call1("sum", 1)}},
+		{"count(10 / (int(value) - 3)) as c, max(int(value)) as m", "",
+			nil, nil, []string{bad3, "int(value)"},
+			[]c09Field{c09Call1("count", 0), c09Call1("max", 1)}},
+		{"substr(key, 0, 1) as g, count(10 / (int(value) - 3)) as c, sum(10 / (int(value) - 4)) as s", "g",
+			[]string{g}, []string{g}, []string{bad3, bad4},
+			[]c09Field{{Key: 0}, c09Call1("count", 0), c09Call1("sum", 1)}},
+		{"substr(key, 0, 1) as g, 10 / (count(1) - 2) as x, sum(int(value)) as s", "g",
+			[]string{g}, []string{g}, []string{"1", "int(value)"},
+			[]c09Field{{Key: 0}, c3zFinField(0, 2), c09Call1("sum", 1)}},
+		{"substr(key, 0, 1) as g, 10 / (count(10 / (int(value) - 3)) - 2) as x, 10 / (int(value) - 4) as y", "g, g",
+			[]string{g, g}, []string{g, bad4}, []string{bad3},
+			[]c09Field{{Key: 0}, c3zFinField(0, 2), {Key: 1}}},
+		{"10 / (int(value) - 1) as g, sum(10 / (int(value) - 3)) as s", "g",
+			[]string{"10 / (int(value) - 1)"}, []string{"10 / (int(value) - 1)"}, []string{bad3},
+			[]c09Field{{Key: 0}, c09Call1("sum", 0)}},
+	}
+	limits := [][2]int{{0, -1}, {0, -1}, {0, 1}, {1, 1}, {0, 2}, {1, 2}, {2, 1}, {2, 3}, {0, 0}, {1, 0}, {3, 2}}
+	reps := 3
+	if thorough {
+		reps = 20
+	}
+	for _, t := range tpls {
+		for _, B := range []int{1, 2, 3} {
+			for k := 0; k < reps*len(limits)/3; k++ {
+				l := pick(r, limits)
+				store := [][2]string{}
+				for gi := 0; gi < 1+r.intn(4); gi++ {
+					for j := 1; j <= 1+r.intn(3); j++ {
+						store = append(store, [2]string{fmt.Sprintf("%c%d", 'a'+gi, j), fmt.Sprint(1 + r.intn(6))})
+					}
+				}
+				c3zRunStmt(e, t, store, l[0], l[1], B)
+			}
+		}
+	}
+}
+
+func c3zRunStmt(e *emitter, t c3zTpl, store [][2]string, start, limit, B int) {
+	where := "key != 'zzzz'"
+	q := "select " + t.sel + " where " + where
+	if t.group != "" {
+		q += " group by " + t.group
+	}
+	if limit >= 0 {
+		q += fmt.Sprintf(" limit %d, %d", start, limit)
+	}
+	exprs := append(append(append([]string{}, t.groups...), t.keys...), t.args...)
+	rows, ok := c3zOutcomes(store, where, exprs)
+	if !ok {
+		e.count("c3z:stmt_outcomes_not_recorded")
+		e.m.OutOfModel++
+		return
+	}
+	c := &c09Case{Kind: "stmt", Lazy: true, Query: q, Store: store, All: t.group == "", Fields: t.fields, Start: start, Limit: limit, B: B,
+		Oracle: "select <e> where true, for every pair and every e of: " + strings.Join(exprs, " ; ")}
+	for _, row := range rows {
+		ng, nk := len(t.groups), len(t.keys)
+		c.Pairs = append(c.Pairs, c09Pair{G: row[:ng], K: row[ng : ng+nk], A: row[ng+nk:]})
+	}
+	if !c09InModel(c) {
+		e.count("stmt_out_of_model")
+		e.m.OutOfModel++
+		return
+	}
+	st := newStore(store)
+	for _, batch := range []bool{false, true} {
+		st2 := st.clone()
+		var res runResult
+		var sizes []int
+		func() {
+			defer func() {
+				if rr := recover(); rr != nil {
+					res.Panic = fmt.Sprint(rr)
+				}
+			}()
+			kvql.PlanBatchSize = B
+			kvql.EnableFieldCache = true
+			plan, err := kvql.NewOptimizer(q).BuildPlan(st2)
+			if err != nil {
+				res.Err, res.BuildErr = err, true
+				return
+			}
+			var rec *recPlan
+			if ap, ok := plan.(*kvql.AggregatePlan); ok {
+				rec = &recPlan{inner: ap.ChildPlan}
+				ap.ChildPlan = rec
+			}
+			res = drainPlan(plan, batch, runResult{})
+			if rec != nil {
+				sizes = rec.sizes
+			}
+		}()
+		if res.BuildErr {
+			e.count("c3z:stmt_rejected_by_planner: " + t.sel)
+			return
+		}
+		if batch {
+			c.ObsBatch = c09ObsOf(res)
+			c.Chunks = sizes
+		} else {
+			c.ObsRow = c09ObsOf(res)
+		}
+	}
+	tot := 0
+	for _, s := range c.Chunks {
+		tot += s
+	}
+	if tot != len(c.Pairs) {
+		c.Chunks = nil
+	}
+	e.count("c3z:stmt")
+	c09Emit(e, c)
 }
